@@ -172,7 +172,7 @@ impl Clone for TransitionCycle {
         // caller obligation: the new cycle is a rearrangement of the old one and its counter is exact
         is_permutation_of(new_cycle.cycle@, self.cyc(cycle_idx as int)),
         exists|net: &Network, tours: Map<VehicleIdx, Tour>|
-            self.wf(net, tours) && new_cycle.maintenance_counter == spec_cycle_counter(net, tours, new_cycle.cycle@),
+            #[trigger] self.wf(net, tours) && new_cycle.maintenance_counter == spec_cycle_counter(net, tours, new_cycle.cycle@),
     ensures
         forall|net: &Network, tours: Map<VehicleIdx, Tour>|
             self.wf(net, tours) && new_cycle.maintenance_counter == spec_cycle_counter(net, tours, new_cycle.cycle@)
@@ -183,7 +183,7 @@ impl Clone for TransitionCycle {
 //@before "let total_maintenance_violation"
         proof {
             let (net, tours) = choose|net: &Network, tours: Map<VehicleIdx, Tour>|
-                self.wf(net, tours) && new_cycle.maintenance_counter == spec_cycle_counter(net, tours, new_cycle.cycle@);
+                #[trigger] self.wf(net, tours) && new_cycle.maintenance_counter == spec_cycle_counter(net, tours, new_cycle.cycle@);
             self@.lemma_bounds(net, tours);
             lemma_perm_tours_ok(self@, net, tours, cycle_idx as int, new_cycle.cycle@);
             lemma_counter_bound(net, tours, new_cycle.cycle@);
@@ -199,6 +199,131 @@ impl Clone for TransitionCycle {
                 implies #[trigger] nv.wf(net, tours) by {
                 lemma_perm_tours_ok(self@, net, tours, cycle_idx as int, new_cycle.cycle@);
                 lemma_frame(self@, nv, net, tours, tours, cycle_idx as int, new_cycle);
+            }
+        }
+//@end
+//@item solution/src/transition/modifications.rs Transition::add_vehicle_to_own_cycle
+//@retname r
+//@sig
+    requires
+        exists|tours: Map<VehicleIdx, Tour>| #[trigger] self.wf(network, tours),
+        !self.has_vehicle(vehicle),
+        tour_ok(network, new_tour),
+        self.total_len() < max_vehicles(),
+    ensures
+        forall|tours: Map<VehicleIdx, Tour>| #[trigger] self.wf(network, tours)
+            ==> r.wf(network, tours.insert(vehicle, *new_tour)), // @obl C15.add_vehicle_to_own_cycle.wf
+        // a new one-vehicle cycle, reusing an index from empty_cycles if there is one
+        r.has_vehicle(vehicle) && 0 <= r.cycle_of(vehicle) < r.n() && r.cyc(r.cycle_of(vehicle)) == seq![vehicle], // @obl C15.add_vehicle_to_own_cycle.membership
+        r.cycle_lookup@ == self.cycle_lookup@.insert(vehicle, r.cycle_of(vehicle) as usize),
+        self.empty_cycles@.len() == 0 ==> r.n() == self.n() + 1 && r.cycle_of(vehicle) == self.n(),
+        self.empty_cycles@.len() > 0 ==> r.n() == self.n() && r.cycle_of(vehicle) == self.empty_cycles@.last()
+            && r.empty_cycles@ == self.empty_cycles@.drop_last(), // @obl C15.add_vehicle_to_own_cycle.reuses_empty_cycle
+        forall|i: int| 0 <= i < self.n() && i != r.cycle_of(vehicle) ==> #[trigger] r.cyc(i) == self.cyc(i),
+//@first
+        proof {
+            let tours = choose|tours: Map<VehicleIdx, Tour>| #[trigger] self.wf(network, tours);
+            self@.lemma_bounds(network, tours);
+            lemma_tour_ok_depots(network, new_tour);
+            lemma_dist_bound(network, sp_end_depot(new_tour), sp_start_depot(new_tour));
+        }
+//@after "let new_cycle"
+        let ghost nc = new_cycle;
+        assert(nc.cycle@ =~= seq![vehicle]);
+//@before "Transition {"
+        proof {
+            let nv = TView { cycles: cycles@, total_violation: total_maintenance_violation as int, total_counter: total_maintenance_counter as int,
+                lookup: cycle_lookup@, empty: empty_cycles@ };
+            assert forall|tours: Map<VehicleIdx, Tour>| #[trigger] self.wf(network, tours)
+                implies nv.wf(network, tours.insert(vehicle, *new_tour)) by {
+                let tours2 = tours.insert(vehicle, *new_tour);
+                lemma_counter_single(network, tours2, vehicle);
+                if self.empty_cycles@.len() == 0 {
+                    assert(cycles@ =~= self.cycles@.push(nc));
+                    lemma_push_cycle(self@, nv, network, tours, tours2, nc);
+                    assert forall|x: CycleIdx| #[trigger] nv.empty.contains(x) <==> (0 <= x < nv.n() && nv.cyc(x as int).len() == 0) by {
+                        assert(!self@.empty.contains(x));
+                        if x < self.n() { assert(nv.cyc(x as int) == self.cyc(x as int)); }
+                    }
+                } else {
+                    let k = self.empty_cycles@.last() as int;
+                    assert(cycles@ =~= self.cycles@.update(k, nc));
+                    lemma_frame(self@, nv, network, tours, tours2, k, nc);
+                    lemma_drop_last_contains(self.empty_cycles@);
+                    assert forall|x: CycleIdx| #[trigger] nv.empty.contains(x) <==> (0 <= x < nv.n() && nv.cyc(x as int).len() == 0) by {
+                        if x < self.n() && x != k { assert(nv.cyc(x as int) == self.cyc(x as int)); }
+                    }
+                }
+            }
+        }
+//@before "let empty_cycle_idx"
+            assert(self.empty_cycles@.contains(self.empty_cycles@.last()));
+//@end
+//@item solution/src/transition/modifications.rs Transition::update_vehicle
+//@retname r
+//@sig
+    requires
+        self.wf(network, eff_tours(updated_tours@, old_tours@)),
+        self.has_vehicle(vehicle),
+        // caller-side assumption: the tour that `vehicle` had so far is read from old_tours, i.e. a
+        // vehicle is updated at most once per round
+        !updated_tours@.contains_key(vehicle),
+        tour_ok(network, new_tour),
+    ensures
+        r.wf(network, eff_tours(updated_tours@, old_tours@).insert(vehicle, *new_tour)), // @obl C15.update_vehicle.wf
+        r.n() == self.n() && (forall|i: int| 0 <= i < self.n() ==> #[trigger] r.cyc(i) == self.cyc(i)), // @obl C15.update_vehicle.same_cycles
+        r.cycle_lookup@ == self.cycle_lookup@,
+        r.empty_cycles@ == self.empty_cycles@,
+//@before "let cycle_idx"
+        proof {
+            assert(cycles@ =~= self.cycles@) by {
+                assert forall|i: int| 0 <= i < self.cycles@.len() implies #[trigger] cycles@[i] == self.cycles@[i] by {
+                    assert(vstd::pervasive::cloned(self.cycles@[i], cycles@[i]));
+                }
+            }
+        }
+//@before "let new_maintenance_counter"
+        proof {
+            let tours = eff_tours(updated_tours@, old_tours@);
+            let k = *cycle_idx as int;
+            let c = self.cyc(k);
+            let n = c.len() as int;
+            self@.lemma_bounds(network, tours);
+            assert(old_cycle.maintenance_counter == self@.cycles[k].maintenance_counter);
+            assert(c.contains(vehicle));
+            let p = c.index_of(vehicle);
+            assert(self.cyc(k)[p] == vehicle);
+            assert(tour_ok(network, &tours[vehicle]));
+            lemma_tour_ok_depots(network, new_tour);
+            lemma_dist_bound(network, sp_end_depot(new_tour), sp_start_depot(new_tour));
+            if n >= 2 {
+                lemma_mod_next(p, n);
+                lemma_mod_prev(p, n);
+                let pr = self.pred_of(vehicle);
+                let su = self.succ_of(vehicle);
+                assert(self.cyc(k)[(p + n - 1) % n] == pr);
+                assert(self.cyc(k)[(p + 1) % n] == su);
+                lemma_tour_ok_depots(network, &tours[pr]);
+                lemma_tour_ok_depots(network, &tours[su]);
+                lemma_counter_update(network, tours, c, p, *new_tour);
+            } else {
+                assert(c =~= seq![vehicle]);
+                lemma_counter_single(network, tours.insert(vehicle, *new_tour), vehicle);
+            }
+        }
+//@after "let new_cycle"
+        let ghost nc = new_cycle;
+//@before "Transition {"
+        proof {
+            let tours = eff_tours(updated_tours@, old_tours@);
+            let k = *cycle_idx as int;
+            assert(cycles@ =~= self.cycles@.update(k, nc));
+            let nv = TView { cycles: cycles@, total_violation: total_maintenance_violation as int, total_counter: total_maintenance_counter as int,
+                lookup: self.cycle_lookup@, empty: self.empty_cycles@ };
+            lemma_perm_tours_ok(self@, network, tours, k, nc.cycle@);
+            lemma_frame(self@, nv, network, tours, tours.insert(vehicle, *new_tour), k, nc);
+            assert forall|x: CycleIdx| #[trigger] nv.empty.contains(x) <==> (0 <= x < nv.n() && nv.cyc(x as int).len() == 0) by {
+                if x < self.n() && x != k { assert(nv.cyc(x as int) == self.cyc(x as int)); }
             }
         }
 //@end
